@@ -31,7 +31,7 @@ package acpi
 //@   property C14
 //@   raw header
 //@   requires tableAddr < 0x1000000000000 && vmm.mapCalls < 0x2000000000000000 && foreignErrs()
-//@   modifies vmm.mapCalls, vmm.mapLogPage, vmm.mapLogFrame, vmm.mapLogFlags, vmm.pageTables
+//@   modifies vmm.mapCalls, vmm.mapLogPage, vmm.mapLogFrame, vmm.mapLogFlags, vmm.pageTables, vmm.unmapCalls, vmm.unmapLogPage
 //@   ensures hdr: sizeofHeader == 36
 //@   ensures valid: err == nil ==> addrof(header) == tableAddr && okTable(mem, tableAddr, mem32(tableAddr+4))
 //@   ensures mismatch: err == errTableChecksumMismatch ==> addrof(header) == tableAddr && !okTable(mem, tableAddr, mem32(tableAddr+4))
@@ -47,7 +47,7 @@ package acpi
 //@ func (drv *acpiDriver) enumerateTables(w io.Writer) (err *kernel.Error)
 //@   property C14
 //@   requires drv != nil && foreignErrs() && vmm.mapCalls < 0x10000000000 && wfRoot(drv.rsdtAddr, drv.useXSDT)
-//@   modifies drv.tableMap, vmm.mapCalls, vmm.mapLogPage, vmm.mapLogFrame, vmm.mapLogFlags, vmm.pageTables, kfmt.outLen, kfmt.out, elems(uint8)
+//@   modifies drv.tableMap, vmm.mapCalls, vmm.mapLogPage, vmm.mapLogFrame, vmm.mapLogFlags, vmm.pageTables, kfmt.outLen, kfmt.out, elems(uint8), vmm.unmapCalls, vmm.unmapLogPage
 //@   at mapupdate 1: assert registered: okTable(mem, addrof(value), value.Length) && dataptr(key) == addrof(value) && len(key) == 4
 //@   at call mapACPITable 3: assert dsdt: dsdtAddr == ite(acpiRev >= 2, uintptr(mem64(addrof(header)+140)), uintptr(mem32(addrof(header)+40)))
 //@   at mapupdate 2: assert registeredDsdt: okTable(mem, addrof(value), value.Length) && dataptr(key) == addrof(value) && len(key) == 4
@@ -69,13 +69,13 @@ package acpi
 
 //@ func locateRSDT$1()
 //@   property C14
-//@   modifies vmm.pageTables
+//@   modifies vmm.pageTables, vmm.unmapCalls, vmm.unmapLogPage
 //@   loop 1 (curPage <= mm.PageFromAddress(rsdpLocationHi)) invariant true
 
 //@ func locateRSDT() (addr uintptr, useXSDT bool, err *kernel.Error)
 //@   property C14
 //@   requires vmm.mapCalls < 0x1000000000000 && foreignErrs()
-//@   modifies vmm.mapCalls, vmm.mapLogPage, vmm.mapLogFrame, vmm.mapLogFlags, vmm.pageTables
+//@   modifies vmm.mapCalls, vmm.mapLogPage, vmm.mapLogFrame, vmm.mapLogFlags, vmm.pageTables, vmm.unmapCalls, vmm.unmapLogPage
 //@   ensures first: forall(a, uintptr, isCand(a) && validRSDP(a) && forall(c, uintptr, isCand(c) && c < a ==> !validRSDP(c)) ==> (err == nil || vmm.vmmError(err)) && (err == nil ==> useXSDT == (mem8(a+15) != 0) && addr == ite(mem8(a+15) == 0, uintptr(mem32(a+16)), uintptr(mem64(a+24)))))
 //@   ensures none: forall(c, uintptr, isCand(c) ==> !validRSDP(c)) ==> err == errMissingRSDP || vmm.vmmError(err)
 //@   ensures found: err == nil ==> exists(a, uintptr, isCand(a) && validRSDP(a))
@@ -89,6 +89,6 @@ package acpi
 //@ func probeForACPI() (d device.Driver)
 //@   property C14
 //@   requires vmm.mapCalls < 0x1000000000000 && foreignErrs()
-//@   modifies vmm.mapCalls, vmm.mapLogPage, vmm.mapLogFrame, vmm.mapLogFlags, vmm.pageTables
+//@   modifies vmm.mapCalls, vmm.mapLogPage, vmm.mapLogFrame, vmm.mapLogFlags, vmm.pageTables, vmm.unmapCalls, vmm.unmapLogPage
 //@   ensures found: !isnil(d) ==> typeis(d, *acpiDriver) && exists(a, uintptr, isCand(a) && validRSDP(a)) && forall(a, uintptr, isCand(a) && validRSDP(a) && forall(c, uintptr, isCand(c) && c < a ==> !validRSDP(c)) ==> unbox(d, *acpiDriver).useXSDT == (mem8(a+15) != 0) && unbox(d, *acpiDriver).rsdtAddr == ite(mem8(a+15) == 0, uintptr(mem32(a+16)), uintptr(mem64(a+24))))
 //@   ensures none: forall(c, uintptr, isCand(c) ==> !validRSDP(c)) ==> isnil(d)
